@@ -101,6 +101,17 @@ RaKey(r) == <<r[1] % 16, IF (r[1] \div 16) % 2 = 1 THEN 0 ELSE 1, SubSeq(r, 2, L
 RaLedgerLt(a, b) == LET x == RaKey(a) y == RaKey(b) IN x[1] < y[1] \/ (x[1] = y[1] /\ (x[2] < y[2] \/ (x[2] = y[2] /\ LexLt(x[3], y[3]))))
 RewardIxLedger(body, ra) == Cardinality({r \in RewardAccounts(body) : RaLedgerLt(r, ra)})
 RewardIxBytes(body, ra) == Cardinality({r \in RewardAccounts(body) : LexLt(r, ra)})
+\*   voting: voters ordered as the ledger's Map Voter: committee voters, then DReps, then pools (constructor order of Voter);
+\*   within committee / DRep voters script-hash credentials come before key-hash credentials (constructor order of Credential), then
+\*   hash bytes. Wire types: 0 committee key, 1 committee script, 2 DRep key, 3 DRep script, 4 pool. A voter is <<type, hash>>.
+Voters(body) == IF HasK(body, 19) THEN LET v == GetK(body, 19) IN {<<Small(v.kids[2*j-1].kids[1].arg), v.kids[2*j-1].kids[2].str>> : j \in 1..(Len(v.kids) \div 2)} ELSE {}
+VoterKey(v) == <<IF v[1] <= 1 THEN 0 ELSE IF v[1] <= 3 THEN 1 ELSE 2, IF v[1] \in {1, 3} THEN 0 ELSE 1, v[2]>>
+VoterLedgerLt(a, b) == LET x == VoterKey(a) y == VoterKey(b) IN x[1] < y[1] \/ (x[1] = y[1] /\ (x[2] < y[2] \/ (x[2] = y[2] /\ LexLt(x[3], y[3]))))
+VoteIxLedger(body, v) == Cardinality({w \in Voters(body) : VoterLedgerLt(w, v)})
+\*   proposal procedure = [deposit, reward account, action, anchor]; action 0 = [0, prev, update, policy / null], action 2 = [2, withdrawals, policy / null]
+PropPolicy(p) == LET g == p.kids[3] t == Small(g.kids[1].arg) IN IF t = 0 /\ g.kids[4].mt = 2 THEN {g.kids[4].str} ELSE IF t = 2 /\ g.kids[3].mt = 2 THEN {g.kids[3].str} ELSE {}
+\*   proposing: position in the proposal sequence (0-based); -1 when absent
+PropIx(B, body, propBytes) == LET ps == Elems(body, 20) S == {j \in 1..Len(ps) : Span(B, ps[j]) = propBytes} IN IF S = {} THEN -1 ELSE (CHOOSE j \in S : TRUE) - 1
 \* ---- script-integrity preimage: redeemers bytes ++ datums bytes ++ language views (ledger's getLanguageView encoding)
 \*   PlutusV1 (id 0): key = CBOR bytes h'00', value = CBOR bytes wrapping the INDEFINITE-length list of the cost parameters;
 \*   PlutusV2/V3 (ids 1, 2): key = uint, value = definite-length list. Canonical key order: shorter encoded key first.
